@@ -2,6 +2,14 @@ import typing
 from urllib.parse import unquote as urllib__parse__unquote
 # ******************************************************************************
 # ******************************************************************************
+class n0hidden_list(tuple):
+    """
+    A single item, which is read by xpath as a list of this one item: name[0], name[-1], name[last()] are name.
+    Such list doesn't exist in the structure, so nothing could be stored into it or deleted from it:
+    __setitem__() and delete() look for the place where the single item really is.
+    """
+# ******************************************************************************
+# ******************************************************************************
 def split_name_index(node_name: str) -> typing.Tuple[
                                                         str,
                                                         typing.Union[
